@@ -1,9 +1,11 @@
 (* C20 — STRL compilation (C++ back-end): every solution of the generated model is a valid
    space-time allocation.  Only statements; proofs are in Proofs/StrlP*.v.
-   PARTIAL: see the header of Model/Strl.v for what is not modelled. *)
+   PARTIAL: see the header of Model/Strl.v for what is not modelled (WindowedChoose, MalleableChoose,
+   optimisation passes, DAG sharing); the optimality half of the property (max utility = brute-force
+   optimum, coarser discretisation only loses utility) is NOT proved. *)
 From Coq Require Import ZArith Bool List.
 Import ListNotations.
-From Verif Require Import Model.Val Model.Strl Proofs.StrlP Proofs.StrlP2.
+From Verif Require Import Model.Val Model.Strl Proofs.StrlP Proofs.StrlP2 Proofs.StrlP3.
 Open Scope Z_scope.
 
 (* capacity: for every tree whose leaf start times are congruent modulo the granularity, every
@@ -23,8 +25,59 @@ Theorem C20_capacity_refuted :
 Proof. exact capacity_unaligned_refuted. Qed.
 Print Assumptions C20_capacity_refuted.
 
+(* every placement read back is the exact image of a Choose leaf whose indicator is 1: same name,
+   start, end = start + duration, total amount = requested amount, drawn from available partitions of
+   that Choose, each share positive and within the partition; nothing is read back for a Choose
+   whose indicator is 0 *)
+Theorem C20_placements_exact : forall pt now g e cs a,
+  compile pt now g e = Ok cs -> sat cs a = true ->
+  placements_exact pt now e (populate pt now a e) /\
+  (forall pl, In pl (populate pt now a e) -> a (VInd (pl_name pl)) = 1).
+Proof. exact placements_are_exact. Qed.
+Print Assumptions C20_placements_exact.
+
+(* in the model itself a parsed Choose holds nothing when unsatisfied and exactly its amount when satisfied *)
+Theorem C20_choose_amounts : forall pt now g e cs a n ps am s d u,
+  compile pt now g e = Ok cs -> sat cs a = true ->
+  In (Choose n ps am s d u) (subs e) -> is_pu (parse pt now (Choose n ps am s d u)) = true ->
+  (a (VInd n) = 0 /\ forall q, In q (sched pt ps) -> a (VAlloc n q) = 0) \/
+  (a (VInd n) = 1 /\ sumZ (map (fun p => a (VAlloc n p)) (sched pt ps)) = am).
+Proof. exact choose_amounts. Qed.
+Print Assumptions C20_choose_amounts.
+
+(* Min: every child with a solver indicator has the indicator of the Min (all or none) *)
+Theorem C20_min_all_or_none : forall pt now g e cs a n ks,
+  compile pt now g e = Ok cs -> sat cs a = true -> In (Min n ks) (subs e) ->
+  0 <= a (VInd n) <= 1 /\
+  forall k s en u v, In k ks -> parse pt now k = PU s en u (AVar v) -> a v = a (VInd n).
+Proof. exact min_all_or_none. Qed.
+Print Assumptions C20_min_all_or_none.
+
+(* Max: the indicators of the children sum to the (binary) indicator of the Max: at most one child *)
+Theorem C20_max_at_most_one : forall pt now g e cs a n ks,
+  compile pt now g e = Ok cs -> sat cs a = true -> In (Max n ks) (subs e) ->
+  0 <= a (VInd n) <= 1 /\
+  sumZ (map (kid_ind pt now a) ks) = a (VInd n) /\
+  (forall k, In k ks -> 0 <= kid_ind pt now a k <= 1) /\
+  (forall k1 k2, In k1 ks -> In k2 ks -> k1 <> k2 -> ~ (kid_ind pt now a k1 = 1 /\ kid_ind pt now a k2 = 1)).
+Proof. exact max_at_most_one. Qed.
+Print Assumptions C20_max_at_most_one.
+
+(* finding F14: the LessThan ordering of the read-back placements is NOT guaranteed in general *)
+Theorem C20_lessthan_refuted :
+  exists pt now g e cs a, compile pt now g e = Ok cs /\ sat cs a = true /\ alignedb g e = true /\
+    lt_okb e (populate pt now a e) = false.
+Proof. exact lessthan_refuted. Qed.
+Print Assumptions C20_lessthan_refuted.
+
 (* the utility reported by populateResults is the value of the model objective *)
 Theorem C20_utility_is_objective : forall pt now g e cs a,
   compile pt now g e = Ok cs -> sol_util (solve pt now a e) = objective_value cs a.
 Proof. exact utility_is_objective. Qed.
 Print Assumptions C20_utility_is_objective.
+
+(* the monitor applied to the implementation's placements decides the statement of C20_placements_exact *)
+Theorem C20_monitor_exact : forall pt now e pls,
+  placements_exactb pt now e pls = true <-> placements_exact pt now e pls.
+Proof. exact placements_exactb_iff. Qed.
+Print Assumptions C20_monitor_exact.
